@@ -40,6 +40,8 @@ import Driver.AstT
 import Driver.ATree
 import Driver.ATreeEx
 import Driver.SViable
+import Driver.C09B
+import Driver.AnnQ
 /-!
 Line-protocol driver `jsight-model` (DESIGN.md §12). One request per line on stdin, one reply per
 line on stdout. Core Lean only: nothing imported here may import Mathlib (the executable would
@@ -245,6 +247,7 @@ def handle (line : String) : String :=
   | "loadv" :: r => DLoadV.handle (r.headD "")
   | "atree" :: _ => Drv.ATreeD.handle line
   | "atreeex" :: _ => Drv.ATreeExD.handle line
+  | "annq" :: r => Drv.AnnQ.handle r
   | "omap" :: _ => DOMap.handle (restOf line)
   | "semn" :: _ => DSemN.handle (restOf line)
   | "sem" :: _ => DSem.handle (restOf line)
@@ -268,6 +271,7 @@ def handle (line : String) : String :=
   | "crules" :: _ => DCR.handle line
   | "cspec" :: _ => DCR.handle line
   | "bridge" :: r => DBridge.handle r
+  | "c09b" :: r => DC09B.handle r
   | "ast" :: r => DMisc.ast r
   | "rgx" :: r => DMisc.rgx r
   | "c18r" :: r => DC18R.handle r
